@@ -334,6 +334,28 @@ def odd_name_cases():
     return out
 
 
+def call_context_cases():
+    """require() wherever an expression can stand in the main program and inside a package: every context must be
+    found by the walker (the package gets embedded) and left as written."""
+    ctxs = [b'local m = require("p")\n', b'local a, m = 1, require("p")\n', b'm = require("p").f\n', b'm = require("p")["f"]\n',
+            b'require("p").f()\n', b'require("p"):g()\n', b'm = {lib = require("p")}\n', b'm = {require("p")}\n',
+            b'f(require("p"))\n', b'f(1, require("p"), 2)\n', b'if require("p") then z=2 end\n', b'if (require("p")) z=2\n',
+            b'while not require("p") do break end\n', b'for i=1,require("p").n do end\n', b'for k in pairs(require("p")) do end\n',
+            b'function f() return require("p") end\n', b'local function f() local q = require("p") return q end\n',
+            b'm = m or require("p")\n', b'm = -require("p").n\n', b'm = (require("p"))\n', b'm = require("p") .. ""\n',
+            b'repeat m = require("p") until m\n', b'do local q = require("p") end\n', b't[require("p").k] = 1\n',
+            b'm = function() return require("p") end\n', b'm = require "p"\n', b'm = require[[p]]\n', b"m = require'p'.f\n",
+            b'?require("p").n\n', b'x += require("p").n\n', b'goto l ::l:: m = require("p")\n']
+    out = []
+    for i, c in enumerate(ctxs):
+        out.append(('ctx-main-%d' % i, {'p.lua': b'return {f=function() end, g=function() end, n=1, k=1}\n'}, c + b'z=1\n', [], None,
+                    {b'p': 'p.lua'}))
+        out.append(('ctx-package-%d' % i, {'q.lua': c.replace(b'"p"', b'"p2"').replace(b"'p'", b"'p2'").replace(b'[[p]]', b'[[p2]]') + b'r=1\n',
+                                           'p2.lua': b'return {f=function() end, g=function() end, n=1, k=1}\n'},
+                    b'require("q")\nz=1\n', [], None, None))
+    return out
+
+
 def path_cases():
     # (files, main source, build args, env, expected packages {name: file})
     return [
@@ -354,7 +376,7 @@ def path_cases():
          b'require("util")\nrequire("util/vec")\nz=1\n', [], None, {b'util': 'util.lua', b'util/vec': 'util/vec.lua'}),
         ('dir-named-like-package-loadpath', {'lib/util.lua': b'u=1\n', 'lib/util/vec.lua': b'v=2\n', 'util/x.lua': b'w=3\n'},
          b'require("util")\nz=1\n', ['--lua-path', 'lib/?;lib/?.lua'], None, {b'util': 'lib/util.lua'}),
-    ] + nested_loadpath_cases() + odd_name_cases()
+    ] + nested_loadpath_cases() + odd_name_cases() + call_context_cases()
 
 
 def run_path(pc, res):
@@ -376,6 +398,8 @@ def run_path(pc, res):
         if err is not None or rcode != 0:
             res.violation('C14|build-fails|path-%s' % name, 'build (%s) failed: %r' % (name, err or rcode), case)
             return
+        if expected is None:
+            expected = {b'q': 'q.lua', b'p2': 'p2.lua'}
         pk = {n: toks(files[f]) for n, f in expected.items()}
         if check_out(out, main, pk, res, case, 'path-' + name):
             res.outcome(('path', name))
